@@ -386,7 +386,10 @@ def subst(t, mapping):
         if k in ('num', 'sym'):
             r = x
         elif k == 'app':
-            r = mk('app', x[1], tuple(go(a) for a in x[2]))
+            if x[1] == 'inv' and len(x[2]) == 1:
+                r = div(ONE, go(x[2][0]))
+            else:
+                r = mk('app', x[1], tuple(go(a) for a in x[2]))
         elif k == 'poly':
             r = ZERO
             for m, c in x[1]:
